@@ -47,6 +47,17 @@ def state_digest(m):
                  [(p.name, repr(p.value)) for s in m.sections for p in s if p.name != 'template_data']))
 
 
+def _hold(k, label, obj, view):
+    """remember a result object a caller would still have in hand; `view(obj)` is what the caller sees in it"""
+    try:
+        held = k.setdefault('held', [])
+        if len(held) < 6:
+            held.append((label, obj, view, view(obj)))
+    except Exception:
+        pass
+    return obj
+
+
 def make_ops(m0, rng, light=False):
     """operation table {name: f(message, kept) -> comparable result}; `kept` is a per-object dict for objects that live across
     operations (a rendered object encoded by several encoders in turn)"""
@@ -66,8 +77,9 @@ def make_ops(m0, rng, light=False):
     rng.shuffle(ids)
     ops = {}
     ops['state'] = lambda m, k: state_digest(m)
-    ops['flat_json'] = lambda m, k: json.dumps(FlatJsonRenderer().render(m), cls=EntityEncoder)
-    ops['nested_json'] = lambda m, k: json.dumps(NestedJsonRenderer().render(m), cls=EntityEncoder)
+    _dumps = lambda o: json.dumps(o, cls=EntityEncoder)
+    ops['flat_json'] = lambda m, k: _dumps(_hold(k, 'flat_json object', FlatJsonRenderer().render(m), _dumps))
+    ops['nested_json'] = lambda m, k: _dumps(_hold(k, 'nested_json object', NestedJsonRenderer().render(m), _dumps))
     ops['flat_text'] = lambda m, k: FlatTextRenderer().render(m)
     ops['nested_text'] = lambda m, k: NestedTextRenderer().render(m)
     ops['wire'] = lambda m, k: m.wire()
@@ -78,17 +90,18 @@ def make_ops(m0, rng, light=False):
     for lab in ids[:2]:
         for sel in rng.sample(sels, 2):
             e = sel + lab
-            ops['query:' + e] = (lambda e: lambda m, k: repr((lambda r: (r.subset_indices(), r.all_values()))(
-                DataQuerent(NodePathParser()).query(m, e))))(e)
+            _qview = lambda r: repr((r.subset_indices(), r.all_values()))
+            ops['query:' + e] = (lambda e: lambda m, k: _qview(_hold(k, 'query result ' + e, DataQuerent(NodePathParser()).query(m, e), _qview)))(e)
     from pybufrkit.script import ScriptRunner
     for qname in [x for x in sorted(ops) if x.startswith('query:')][:2]:
         e = qname[6:]
         lvl = rng.choice([0, 1, 2, 4])
-        ops['script:%d:%s' % (lvl, e)] = (lambda e, lvl: lambda m, k: repr(
-            ScriptRunner('v = ${%s}\n' % e, data_values_nest_level=lvl).run(m).get('v')))(e, lvl)
+        _sview = lambda d: repr(sorted((kk, repr(vv)) for kk, vv in d.items() if kk.startswith('PBK_') and kk[4:].isdigit() or kk == 'v'))
+        ops['script:%d:%s' % (lvl, e)] = (lambda e, lvl: lambda m, k: repr(_hold(
+            k, 'script variables', ScriptRunner('v = ${%s}\n' % e, data_values_nest_level=lvl).run(m), _sview).get('v')))(e, lvl)
     idxsets = [[0], list(range(n)), [n - 1], list(range(0, n, 2)), [n - 1, 0]]
     I = rng.choice(idxsets)
-    ops['subset:%r' % I] = (lambda I: lambda m, k: repr(m.subset(I)))(I)
+    ops['subset:%r' % I] = (lambda I: lambda m, k: repr(_hold(k, 'subset data object', m.subset(I), repr)))(I)
     ops['encode_subset:%r' % I] = (lambda I: lambda m, k: Encoder().process(m.subset(I)).serialized_bytes.hex())(I)
     ops['encode_rendered_object'] = lambda m, k: Encoder().process(FlatJsonRenderer().render(m)).serialized_bytes.hex()
     ops['encode_rendered_text'] = lambda m, k: Encoder().process(
@@ -280,6 +293,22 @@ def exercise(ctx, factory, rng, prefix, spec, nops=8, light=False, script=None):
                         dict(spec, object_history=hist, operation=name,
                              got=str(got[1])[:300], fresh=str(ref[name][1])[:300]))
             break
+        # results of earlier operations that the caller still has in hand show what they showed when they were returned
+        changed = None
+        for label, obj, view, snap in kept.get('held', []):
+            try:
+                if view(obj) != snap:
+                    changed = label
+                    break
+            except Exception as e:
+                changed = '%s (reading it now raises %s)' % (label, type(e).__name__)
+                break
+        if changed:
+            ctx.violate('%s/earlier-result-changed/%s/by-%s' % (prefix, changed.split(' ')[0], kind),
+                        'the %s returned earlier in the history %r no longer shows what it showed when it was returned' % (changed, hist),
+                        dict(spec, object_history=hist, operation=name, held=changed))
+            break
+        ctx.counters['held_results_rechecked'] += len(kept.get('held', []))
         # whatever the operation was, the object still holds what a fresh one holds
         if 'state' not in ref:
             ref['state'] = _outcome(lambda: ops['state'](factory(), {}))
